@@ -54,6 +54,11 @@ pub struct Entry {
     /// for private trees: rewrite this file with this text before building
     #[serde(default)]
     pub rewrite: Option<(String, String)>,
+    /// the process's working directory for this build (scratch-relative) if it is not the
+    /// episode's; only in episodes with a single caller thread, which changes directory between
+    /// its builds. The reference is the same build alone in a fresh process started there.
+    #[serde(default)]
+    pub cwd: Option<String>,
 }
 
 #[derive(Serialize, Deserialize, Clone, Debug)]
@@ -246,6 +251,8 @@ pub fn mb_run(input: &str) -> i32 {
         let results = results.clone();
         let root = root.clone();
         let cwd_abs = cwd_abs.clone();
+        let single = n == 1;
+        let ep_cwd = sc.cwd.clone();
         let h = std::thread::Builder::new()
             .name(format!("sim{}", tid))
             .stack_size(64 << 20)
@@ -277,8 +284,13 @@ pub fn mb_run(input: &str) -> i32 {
                             st.rules.extend(rules);
                         });
                         apply_rewrite(&e, &root);
+                        if single {
+                            // the only caller thread changes directory between its builds
+                            let _ = std::env::set_current_dir(PathBuf::from(&root).join(e.cwd.as_deref().unwrap_or(&ep_cwd)));
+                        }
                         sched.event_no()
                     });
+                    let cwd_abs = if single { simlibc::bypass(|| std::env::current_dir().unwrap_or(cwd_abs.clone())) } else { cwd_abs.clone() };
                     let r2 = root.clone();
                     let res = std::panic::catch_unwind(std::panic::AssertUnwindSafe(|| run_entry(&e, &r2)));
                     let outcome = Outcome::from(match res {
@@ -396,6 +408,11 @@ pub struct Corpus {
 }
 
 const CWD: &str = "work";
+/// the other working directory of episodes in which the caller changes directory
+const ALT_CWD: &str = "alt/work2";
+fn incmodel_dirname(p: &str) -> &str {
+    crate::incmodel::dirname(p)
+}
 
 fn write_files(root: &std::path::Path, files: &BTreeMap<String, String>) -> Result<(), String> {
     let rs = root.to_string_lossy().into_owned();
@@ -410,7 +427,7 @@ fn write_files(root: &std::path::Path, files: &BTreeMap<String, String>) -> Resu
 }
 
 fn tree_entry(sc: &inctree::Scenario, family: &str) -> Entry {
-    Entry { kind: "file".into(), text: String::new(), main: sc.main.clone(), paths: sc.paths.clone(), family: family.into(), intent: sc.intent.clone(), rewrite: None }
+    Entry { kind: "file".into(), text: String::new(), main: sc.main.clone(), paths: sc.paths.clone(), family: family.into(), intent: sc.intent.clone(), rewrite: None, cwd: None }
 }
 
 pub fn gen_corpus(seed: u64, nprog_fam: usize, ntrees: usize) -> Corpus {
@@ -422,7 +439,7 @@ pub fn gen_corpus(seed: u64, nprog_fam: usize, ntrees: usize) -> Corpus {
         let mut ids = vec![];
         for (i, p) in fam.into_iter().enumerate() {
             let id = format!("p{}_{}", f, i);
-            c.entries.insert(id.clone(), Entry { kind: "str".into(), text: p.text(), main: String::new(), paths: vec![], family: format!("F{}", f), intent: p.intent.clone(), rewrite: None });
+            c.entries.insert(id.clone(), Entry { kind: "str".into(), text: p.text(), main: String::new(), paths: vec![], family: format!("F{}", f), intent: p.intent.clone(), rewrite: None, cwd: None });
             ids.push(id);
         }
         c.families.insert(format!("F{}", f), ids);
@@ -455,6 +472,34 @@ pub fn gen_corpus(seed: u64, nprog_fam: usize, ntrees: usize) -> Corpus {
         }
         c.entries.insert(id.clone(), tree_entry(&sc, "TC"));
         c.families.entry("TC".to_string()).or_default().push(id);
+    }
+    // programs whose meaning depends on the working directory (a relative .includepath or include
+    // in a text that has no file of its own), each once for the episode's directory and once for
+    // another one that holds a different file of that name, or none
+    for k in 0..3usize {
+        let name = format!("cwdep_{}.inc", k);
+        // (today a relative .includepath in a text is resolved against the *parent* of the
+        // working directory; the files are there under either reading, per working directory)
+        let (va, vb) = (11 + r.below(100), 120 + r.below(100));
+        for d in [format!("{}/cwinc", CWD), "cwinc".to_string()] {
+            c.files.insert(format!("{}/{}", d, name), format!(".equ cwk_{} = {}\n", k, va));
+        }
+        if k != 2 {
+            for d in [format!("{}/cwinc", ALT_CWD), format!("{}/cwinc", incmodel_dirname(ALT_CWD))] {
+                c.files.insert(format!("{}/{}", d, name), format!(".equ cwk_{} = {}\n    inc r5\n", k, vb));
+            }
+        }
+        c.files.insert(format!("{}/keep.inc", ALT_CWD), "; so that the directory exists\n".to_string());
+        let text = if k == 1 {
+            format!(".include \"cwinc/{}\"\n    ldi r16, cwk_{}\n", name, k)
+        } else {
+            format!(".includepath \"cwinc\"\n    nop\n.include \"{}\"\n    ldi r16, cwk_{}\n", name, k)
+        };
+        for (side, cwd) in [("a", None), ("b", Some(ALT_CWD.to_string()))] {
+            let id = format!("cw{}_{}", k, side);
+            c.entries.insert(id.clone(), Entry { kind: "str".into(), text: text.clone(), main: String::new(), paths: vec![], family: "CW".into(), intent: "cwd".into(), rewrite: None, cwd: cwd.clone() });
+            c.tree_files.insert(id, c.files.keys().filter(|f| f.contains("cwinc/") || f.ends_with("/keep.inc")).cloned().collect());
+        }
     }
     // private trees, one per thread slot, with versions that rewrite one included file
     for slot in 0..4usize {
@@ -505,8 +550,9 @@ fn compute_refs(c: &mut Corpus, root: &str, stats: &mut Stats, emit: &mut dyn Fn
     let ids: Vec<String> = c.entries.keys().cloned().collect();
     for id in ids {
         let e = c.entries[&id].clone();
-        let a = child_json("ref-one", &json!({"entry": e, "root": root, "cwd": CWD, "hash_seed": 0xA11CEu64, "clock": 1_600_000_000u64}), 60.0);
-        let b = child_json("ref-one", &json!({"entry": e, "root": root, "cwd": CWD, "hash_seed": 0xB0B0B0B0B0u64 ^ seed, "clock": 1_900_000_000u64}), 60.0);
+        let ecwd = e.cwd.clone().unwrap_or_else(|| CWD.to_string());
+        let a = child_json("ref-one", &json!({"entry": e, "root": root, "cwd": ecwd, "hash_seed": 0xA11CEu64, "clock": 1_600_000_000u64}), 60.0);
+        let b = child_json("ref-one", &json!({"entry": e, "root": root, "cwd": ecwd, "hash_seed": 0xB0B0B0B0B0u64 ^ seed, "clock": 1_900_000_000u64}), 60.0);
         stats.count("reference_processes", 2);
         match (a, b) {
             (Ok(a), Ok(b)) => {
@@ -587,12 +633,14 @@ fn single_entry_scenario(c: &Corpus, id: &str) -> Scenario {
 /// Draw an episode over the corpus.
 pub fn gen_episode(c: &Corpus, seed: u64, fn_available: bool) -> Scenario {
     let mut r = Rng::new(seed);
-    let all: Vec<&String> = c.entries.keys().filter(|k| !k.starts_with('v')).collect();
+    let all: Vec<&String> = c.entries.keys().filter(|k| !k.starts_with('v') && !k.starts_with("cw")).collect();
+    let cw: Vec<&String> = c.entries.keys().filter(|k| k.starts_with("cw")).collect();
     let fams: Vec<&String> = c.families.keys().collect();
     let mode = match r.below(20) {
         0..=8 => "concurrent",
         9 | 10 => "mirror",
         11..=13 => "sequential",
+        14 if !cw.is_empty() => "cwd",
         _ => "long",
     };
     let mut threads: Vec<Vec<Op>> = vec![];
@@ -605,7 +653,18 @@ pub fn gen_episode(c: &Corpus, seed: u64, fn_available: bool) -> Scenario {
         }
     };
     let strategy;
-    if mode == "long" {
+    if mode == "cwd" {
+        // one caller thread that changes its working directory between builds: programs whose
+        // meaning depends on it, mixed with others
+        let len = r.range(3, 10) as usize;
+        let mut script = vec![];
+        for _ in 0..len {
+            let id = if r.chance(3, 4) { cw[r.usize(cw.len())].clone() } else { all[r.usize(all.len())].clone() };
+            script.push(Op { entry: id, rules: vec![] });
+        }
+        threads.push(script);
+        strategy = StrategySpec { kind: "sequential".into(), p: 0, d: 0 };
+    } else if mode == "long" {
         let nt = if r.chance(1, 3) { 2 } else { 1 };
         // few entries, mostly failing, repeated; good builds in between and at the end
         let failing: Vec<&String> = all.iter().copied().filter(|k| c.refs.get(*k).map(|x| x.outcome.fails()).unwrap_or(false)).collect();
@@ -1003,8 +1062,9 @@ pub fn replay(scv: &Value) -> Result<Option<Violation>, String> {
     let mut refs: BTreeMap<String, RefOut> = BTreeMap::new();
     let mut first: Option<Violation> = None;
     for (id, e) in &sc.entries {
-        let a = child_json("ref-one", &json!({"entry": e, "root": root, "cwd": sc.cwd, "hash_seed": 0xA11CEu64, "clock": 1_600_000_000u64}), 60.0);
-        let b = child_json("ref-one", &json!({"entry": e, "root": root, "cwd": sc.cwd, "hash_seed": 0xB0B0B0B0B0u64, "clock": 1_900_000_000u64}), 60.0);
+        let ecwd = e.cwd.clone().unwrap_or_else(|| sc.cwd.clone());
+        let a = child_json("ref-one", &json!({"entry": e, "root": root, "cwd": ecwd, "hash_seed": 0xA11CEu64, "clock": 1_600_000_000u64}), 60.0);
+        let b = child_json("ref-one", &json!({"entry": e, "root": root, "cwd": ecwd, "hash_seed": 0xB0B0B0B0B0u64, "clock": 1_900_000_000u64}), 60.0);
         if let (Ok(a), Ok(b)) = (a, b) {
             if let (Ok(a), Ok(b)) = (serde_json::from_value::<RefOut>(a), serde_json::from_value::<RefOut>(b)) {
                 if a.outcome != b.outcome && first.is_none() {
